@@ -22,7 +22,11 @@ type BF struct {
 // BAtom is a canonical atom; enum-equality atoms on one symbol are mutually
 // exclusive in truth tables.
 type BAtom struct {
-	L       *Lin // for <= atoms: the canonical linear form (L <= 0)
+	// Src/SrcPos: the atom is true exactly when boolean symbol Src has value SrcPos
+	// (kept so that formulas of helper functions can be re-instantiated at call sites).
+	Src    *Sym
+	SrcPos bool
+	L      *Lin // for <= atoms: the canonical linear form (L <= 0)
 	Key     string
 	EnumSym string // non-empty for `sym == const` atoms
 	EnumVal int64
@@ -137,6 +141,23 @@ func (f *BF) eval(env map[string]bool) bool {
 // share an atom.
 func atomBF(s *Sym, pos bool) *BF {
 	switch s.K {
+	case KCall:
+		// pure boolean helpers are represented by their bodies, on both the code and the specification side
+		if s.Fn != nil && curProg != nil && inlineDepth < 4 {
+			if hf := curProg.helperBF(s.Fn); hf != nil && len(s.Args) == len(s.Fn.Params) {
+				m := map[ssa.Value]*Sym{}
+				for i, prm := range s.Fn.Params {
+					m[prm] = s.Args[i]
+				}
+				inlineDepth++
+				f := substBF(hf, m)
+				inlineDepth--
+				if !pos {
+					return bfNot(f)
+				}
+				return f
+			}
+		}
 	case KNot:
 		return atomBF(s.Args[0], !pos)
 	case KConst:
@@ -146,13 +167,14 @@ func atomBF(s *Sym, pos bool) *BF {
 	}
 	as := atomsOf(s, true)
 	if len(as) != 1 {
-		a := &BAtom{Key: s.Key(), Loads: allLoads(s)}
+		a := &BAtom{Key: s.Key(), Loads: allLoads(s), Src: s, SrcPos: true}
 		f := &BF{Op: 'a', Atom: a}
 		if !pos {
 			return bfNot(f)
 		}
 		return f
 	}
+	defer func() {}()
 	a := as[0]
 	var f *BF
 	switch a.K {
@@ -204,9 +226,114 @@ func atomBF(s *Sym, pos bool) *BF {
 			f = bfNot(f)
 		}
 	}
+	// record the source symbol: f (for polarity true) is either the atom or its negation
+	if f != nil {
+		if f.Op == 'a' && f.Atom.Src == nil {
+			f.Atom.Src, f.Atom.SrcPos = s, true
+		} else if f.Op == '!' && f.Kids[0].Op == 'a' && f.Kids[0].Atom.Src == nil {
+			f.Kids[0].Atom.Src, f.Kids[0].Atom.SrcPos = s, false
+		}
+	}
 	if !pos {
 		return bfNot(f)
 	}
+	return f
+}
+
+var inlineDepth int
+
+// substBF re-instantiates a formula under a parameter substitution.
+func substBF(f *BF, m map[ssa.Value]*Sym) *BF {
+	switch f.Op {
+	case 'c':
+		return f
+	case 'a':
+		if f.Atom.Src == nil {
+			return f
+		}
+		return atomBF(resimplify(Subst(f.Atom.Src, m)), f.Atom.SrcPos)
+	case '!':
+		return bfNot(substBF(f.Kids[0], m))
+	case '&', '|':
+		ks := make([]*BF, len(f.Kids))
+		for i, k := range f.Kids {
+			ks[i] = substBF(k, m)
+		}
+		if f.Op == '&' {
+			return bfAnd(ks...)
+		}
+		return bfOr(ks...)
+	}
+	return f
+}
+
+// helperBF: the boolean formula computed by a pure, loop-free boolean helper
+// of the analysed packages, over its own parameters; nil if it is not of that shape.
+func (p *Prog) helperBF(fn *ssa.Function) *BF {
+	if p.helperCache == nil {
+		p.helperCache = map[*ssa.Function]*BF{}
+	}
+	if f, ok := p.helperCache[fn]; ok {
+		return f
+	}
+	p.helperCache[fn] = nil // recursion guard
+	if fn.Blocks == nil || len(fn.Blocks) > 24 || fn.Signature.Results().Len() != 1 {
+		return nil
+	}
+	pk := fnPkg(fn)
+	if pk == nil || !isOurPath(pk.Path()) || !p.IsPure(fn) {
+		return nil
+	}
+	if b, ok := fn.Signature.Results().At(0).Type().Underlying().(*types.Basic); !ok || b.Kind() != types.Bool {
+		return nil
+	}
+	fi := p.Info(fn)
+	// loop-free
+	for _, b := range fn.Blocks {
+		for _, s := range fi.Succs[b.Index] {
+			if fi.rpo[s] <= fi.rpo[b.Index] {
+				return nil
+			}
+		}
+	}
+	var disj []*BF
+	for _, ret := range returnsOf(fi) {
+		paths, ok := fi.Paths(ret, -1)
+		if !ok || len(paths) > 64 {
+			return nil
+		}
+		val := fi.valueBF(fi.RetVal(ret, 0), 1)
+		for _, pth := range paths {
+			disj = append(disj, bfAnd(append(append([]*BF{}, pth...), val)...))
+		}
+	}
+	f := bfOr(disj...)
+	am := map[string]*BAtom{}
+	f.atoms(am)
+	if len(am) > 8 {
+		return nil
+	}
+	// every atom must be re-instantiable and free of callee-local values
+	for _, a := range am {
+		if a.Src == nil {
+			return nil
+		}
+		local := false
+		a.Src.Walk(func(x *Sym) {
+			switch x.K {
+			case KPhi, KOpaque, KAlloc:
+				local = true
+			case KCall:
+				if x.Idx == -1 {
+					local = true
+				}
+			}
+		})
+		if local {
+			return nil
+		}
+	}
+	p.helperCache[fn] = f
 	return f
 }
 
@@ -244,6 +371,20 @@ func (fi *FuncInfo) valueBF1(v ssa.Value, depth int) *BF {
 		if f := fi.phiBF(x, depth, nil); f != nil {
 			return f
 		}
+	case *ssa.Call:
+		// a pure boolean helper of the repo: use its body instead of an opaque atom
+		if callee := x.Common().StaticCallee(); callee != nil && depth < 4 {
+			if hf := fi.P.helperBF(callee); hf != nil {
+				args := callArgs(x)
+				if len(args) == len(callee.Params) {
+					m := map[ssa.Value]*Sym{}
+					for i, prm := range callee.Params {
+						m[prm] = fi.Sym(args[i])
+					}
+					return substBF(hf, m)
+				}
+			}
+		}
 	case *ssa.BinOp:
 		// comparison of a merged value with a constant: expand per incoming value
 		if x.Op == token.EQL || x.Op == token.NEQ {
@@ -256,6 +397,9 @@ func (fi *FuncInfo) valueBF1(v ssa.Value, depth int) *BF {
 						return bfConst(same == eq)
 					}
 					if nonEmptyString(e) && k.Value != nil && k.Value.ExactString() == `""` {
+						return bfConst(!eq)
+					}
+					if k.Value == nil && isNonNilValue(e) {
 						return bfConst(!eq)
 					}
 					return atomBF(&Sym{K: KBin, Name: x.Op.String(), Args: []*Sym{fi.Sym(e), fi.Sym(k)}}, true)
@@ -507,12 +651,21 @@ func (fi *FuncInfo) pathsImplyOpt(at ssa.Instruction, from int, spec *BF, asTest
 			var lit *BF
 			if iff, ok := bb.Instrs[len(bb.Instrs)-1].(*ssa.If); ok && len(bb.Succs) == 2 && bb.Succs[0] != bb.Succs[1] {
 				cf := fi.valueBF(iff.Cond, 0)
+				if si != 0 {
+					cf = bfNot(cf)
+				}
 				if relevant(cf) {
-					if si == 0 {
-						lit = cf
-					} else {
-						lit = bfNot(cf)
+					lit = cf
+				} else if pj := projectBF(cf, func(a *BAtom) bool {
+					if _, ok := sm[a.Key]; ok {
+						return true
 					}
+					if a.EnumSym != "" && (enumSyms[a.EnumSym] || a.EnumVal == 0 && zeroSyms[a.EnumSym] != nil) {
+						return true
+					}
+					return false
+				}); pj != nil && pj.Op != 'c' {
+					lit = pj
 				}
 			}
 			if state[s] == nil {
@@ -736,4 +889,71 @@ func isUnsignedSym(s *Sym) bool {
 	}
 	b, ok := s.Typ.Underlying().(*types.Basic)
 	return ok && b.Info()&types.IsUnsigned != 0
+}
+
+
+// isNonNilValue: values that are never nil: fresh allocations and interface
+// values made from a concrete value.
+func isNonNilValue(v ssa.Value) bool {
+	switch v.(type) {
+	case *ssa.Alloc, *ssa.MakeInterface, *ssa.MakeMap, *ssa.MakeSlice, *ssa.MakeClosure, *ssa.Function:
+		return true
+	}
+	return false
+}
+
+
+// assignBF substitutes a truth value for an atom.
+func assignBF(f *BF, key string, val bool) *BF {
+	switch f.Op {
+	case 'c':
+		return f
+	case 'a':
+		if f.Atom.Key == key {
+			return bfConst(val)
+		}
+		return f
+	case '!':
+		return bfNot(assignBF(f.Kids[0], key, val))
+	case '&', '|':
+		ks := make([]*BF, len(f.Kids))
+		for i, k := range f.Kids {
+			ks[i] = assignBF(k, key, val)
+		}
+		if f.Op == '&' {
+			return bfAnd(ks...)
+		}
+		return bfOr(ks...)
+	}
+	return f
+}
+
+// projectBF existentially quantifies the atoms that keep() rejects: the result
+// is implied by f (a sound weakening of an antecedent) and mentions only kept
+// atoms. nil if there are too many atoms to eliminate or nothing remains.
+func projectBF(f *BF, keep func(*BAtom) bool) *BF {
+	am := map[string]*BAtom{}
+	f.atoms(am)
+	var drop []string
+	nKeep := 0
+	for k, a := range am {
+		if keep(a) {
+			nKeep++
+		} else {
+			drop = append(drop, k)
+		}
+	}
+	if nKeep == 0 || len(drop) > 6 {
+		return nil
+	}
+	sort.Strings(drop)
+	cur := []*BF{f}
+	for _, k := range drop {
+		var next []*BF
+		for _, g := range cur {
+			next = append(next, assignBF(g, k, true), assignBF(g, k, false))
+		}
+		cur = next
+	}
+	return bfOr(cur...)
 }
